@@ -259,7 +259,7 @@ func (g *Gen) create(fixed bool) Op {
 	}
 	maxr := fmt.Sprint(g.r.N(4))
 	if g.r.P(g.bad()) {
-		maxr = fmt.Sprint(types.MaxExtendedRound + 1)
+		maxr = g.r.Pick(fmt.Sprint(types.MaxExtendedRound+1), fmt.Sprint(types.MaxExtendedRound+1), "4294967295", "4294967294", "65536")
 	} else if (g.profile == "batch" || g.profile == "heavy") && g.r.P(3) {
 		maxr = fmt.Sprint(types.MaxExtendedRound)
 		g.marathonWait = true
